@@ -46,6 +46,12 @@ Arguments Ok {A}. Arguments UB {A}.
 Definition bind {A B} (r : res A) (f : A -> res B) := match r with Ok a => f a | UB => UB end.
 Definition rmap {A B} (f : A -> B) (r : res A) : res B := match r with Ok a => Ok (f a) | UB => UB end.
 
+Fixpoint seq_res {A} (l : list (res A)) : res (list A) :=
+  match l with
+  | [] => Ok []
+  | r :: l' => bind r (fun a => rmap (cons a) (seq_res l'))
+  end.
+
 (* result of an arithmetic operation evaluated in (already promoted) type t with mathematical result r *)
 Definition arith t (r : Z) : res Z :=
   if sgn t then (if in_range t r then Ok r else UB) else Ok (wrap t r).
